@@ -391,6 +391,36 @@ impl CWorld {
             }
         }
         if check_retention {
+            // a snapshot of a chain version is deleted only when a snapshot of a later chain version is stored
+            {
+                let log = self.store.0.lock().unwrap().log.clone();
+                let mut present: Vec<usize> = vec![];
+                for (_, r) in log.iter() {
+                    match r {
+                        SvcReq::Put(n, _) => {
+                            if let Some(v) = n.strip_prefix("s-").and_then(|x| Uuid::try_parse(x).ok()) {
+                                let c = self.cid(v);
+                                if !present.contains(&c) {
+                                    present.push(c);
+                                }
+                            }
+                        }
+                        SvcReq::Del(n) => {
+                            if let Some(v) = n.strip_prefix("s-").and_then(|x| Uuid::try_parse(x).ok()) {
+                                let c = self.cid(v);
+                                present.retain(|x| *x != c);
+                                if let Some(k) = self.hist.iter().position(|x| *x == c) {
+                                    let newer = present.iter().any(|y| self.hist.iter().position(|x| x == y).map(|ky| ky > k).unwrap_or(false));
+                                    if !newer {
+                                        self.problems.push(format!("cleanup deleted the snapshot of chain version {c} although no snapshot of a later chain version was stored (chain {:?}, snapshots left {:?})", self.hist, present));
+                                    }
+                                }
+                            }
+                        }
+                        _ => {}
+                    }
+                }
+            }
             // from the newest on-chain snapshot still stored (or from the first version) everything is there
             let objs: Vec<String> = self.store.0.lock().unwrap().objects.keys().cloned().collect();
             let mut have = vec![];
@@ -509,6 +539,65 @@ pub fn gen_reader(seed: u64, id: usize) -> CaseOut {
         w.feat("cases_with_rejection");
     }
     w.finish(seed, id, "cloud-reader", page, script, true)
+}
+
+/// directed: a cleanup that has read `latest` and listed some pages, a writer that then adds a
+/// version and its snapshot, possibly a second cleanup running to completion, then the first
+/// cleanup goes on
+pub fn gen_cleanup_writer(seed: u64, id: usize) -> CaseOut {
+    let mut rng = Rng::new(seed ^ (id as u64).wrapping_mul(0xC2B2AE3D27D4EB4F) ^ 0xc1ea);
+    let page = rng.range(1, 4);
+    let mut w = CWorld::new(3, page);
+    let mut script = vec![];
+    let mut next_payload = 1usize;
+    for k in 0..rng.range(2, 4) {
+        let parent = w.latest().unwrap_or(0);
+        w.start(0, Call::Add(parent, next_payload));
+        script.push(json!(format!("prefix: client 0 add_version(parent {parent}, payload {next_payload}) created long ago")));
+        next_payload += 1;
+        while w.in_flight(0) {
+            w.step(0, GateCmd::Proceed, OLD);
+        }
+        if k >= 1 && rng.chance(60) {
+            if let Some(l) = w.latest() {
+                w.start(0, Call::AddSnap(l, l));
+                script.push(json!(format!("prefix: client 0 add_snapshot({l})")));
+                while w.in_flight(0) {
+                    w.step(0, GateCmd::Proceed, NEW);
+                }
+            }
+        }
+    }
+    let run = |w: &mut CWorld, script: &mut Vec<Value>, i: usize, k: usize| {
+        let mut done = 0;
+        while w.in_flight(i) && done < k {
+            let req = w.pending(i);
+            script.push(json!(format!("client {i}: {:?} -> Proceed", req)));
+            w.step(i, GateCmd::Proceed, NEW);
+            done += 1;
+        }
+    };
+    script.push(json!("client 1 starts Cleanup"));
+    w.start(1, Call::Cleanup);
+    run(&mut w, &mut script, 1, rng.range(1, 4));
+    let l = w.latest().unwrap_or(0);
+    script.push(json!(format!("client 0 starts add_version(parent {l}), then add_snapshot of it")));
+    w.start(0, Call::Add(l, next_payload));
+    run(&mut w, &mut script, 0, usize::MAX);
+    if let Some(nl) = w.latest() {
+        if nl != l {
+            w.start(0, Call::AddSnap(nl, nl));
+            run(&mut w, &mut script, 0, usize::MAX);
+        }
+    }
+    run(&mut w, &mut script, 1, rng.below(3));
+    if rng.chance(60) {
+        script.push(json!("client 2 starts Cleanup"));
+        w.start(2, Call::Cleanup);
+        run(&mut w, &mut script, 2, usize::MAX);
+    }
+    run(&mut w, &mut script, 1, usize::MAX);
+    w.finish(seed, id, "cloud-cleanup-writer", page, script, true)
 }
 
 pub fn gen_cloud(seed: u64, id: usize, mode: &str) -> CaseOut {
